@@ -577,6 +577,7 @@ Proof.
   destruct (Nat.ltb_spec (List.length data) (16 + nskip)); [discriminate|].
   cbv zeta. destruct (be_value (firstn 8 data) <? 4); [discriminate|].
   destruct (_ || _); [discriminate|].
+  destruct (is_nan_bits _); [discriminate|].
   apply IH. rewrite skipn_length. lia.
 Qed.
 
